@@ -28,7 +28,7 @@ CLAIMED['C17'] = dict(
    design='5 C17')
 CLAIMED['C18'] = dict(
    category='proof',
-   text="FRAGMENT, proved: functional contracts of the hand-written X3 parsers against references from MQTT 5: varint_parser::parse (accepts exactly 1-4 byte encodings, value, advance, failure restores first), len_prefix_parser::parse (succeeds iff 2+len bytes available; attribute = those bytes), scope_limit (subject sees exactly [iter, iter+limit), rejected if beyond last), verbatim_parser, and that an empty remaining range is 'no properties' for all 14 property-list parsers. NOT decided: whole-packet equality through the Spirit X3 composition (assumed contracts on X3 built-ins), re-encoding.",
+   text="FRAGMENT, proved: functional contracts of the hand-written X3 parsers against references from MQTT 5: varint_parser::parse (accepts exactly 1-4 byte encodings, value, advance, failure restores first), len_prefix_parser::parse (succeeds iff 2+len bytes available; attribute = those bytes), scope_limit (subject sees exactly [iter, iter+limit), rejected if beyond last), verbatim_parser, and that an empty remaining range is 'no properties' for all 14 property-list parsers; decode_puback/pubrec/pubrel/pubcomp/disconnect/auth: Remaining Length 0 (reason code and properties omitted) yields the default value without parsing, any longer body is parsed exactly once over [it, it+RL) under scope_limit(RL) and its verdict returned. NOT decided: whole-packet equality through the Spirit X3 composition (assumed contracts on X3 built-ins), re-encoding.",
    note="Assumed contracts: x3::skip_over (no skipper installed), x3::big_word, generic X3 subject parser safety contract, properties<...>::apply_on invokes the functor at most once. 16/14/12 template instantiations emit byte-identical C and are verified once.",
    design='5 C18')
 CLAIMED['C19'] = dict(
@@ -49,7 +49,7 @@ CLAIMED['C08'] = dict(
    design='5 C08')
 CLAIMED['C12'] = dict(
    category='proof',
-   text="PROOF of the keep-alive arithmetic for every K in [0,65535]: negotiated_keep_alive = Server Keep Alive if present else the configured value; assemble_op::compute_read_timeout = exactly 1500*K ms (no int overflow in 3*K*1000/2), duration::max for K=0; ping_op::compute_wait_time = K s, max for K=0. NOT decided: when timers fire, transport latency, the ping/read loops as schedules.",
+   text="PROOF of the keep-alive arithmetic for every K in [0,65535]: negotiated_keep_alive = Server Keep Alive if present else the configured value; assemble_op::compute_read_timeout = exactly 1500*K ms (no int overflow in 3*K*1000/2), duration::max for K=0; ping_op::compute_wait_time = K s, max for K=0; update_session_state (run on every CONNACK) cancels the ping timer exactly once on every path, so the ping loop re-arms with the newly negotiated keep-alive. NOT decided: when timers fire, transport latency, the ping/read loops as schedules.",
    note="Opaque accessors (connack property storage, mqtt context) are ghost objects handed out by stubs with bodies; chrono durations are 64-bit tick counts with the unit conversions clang's AST shows.",
    design='5 C12')
 CLAIMED['C10'] = dict(
@@ -64,8 +64,8 @@ CLAIMED['C03'] = dict(
    design='5 C03')
 CLAIMED['C13'] = dict(
    category='proof',
-   text="FRAGMENT, proved: session_state setters/getters are bit-exact on the two flags (session_present = bit 0, subscriptions_present = bit 1, each setter changes only its bit). NOT built yet: update_session_state event contract and the two-flag lemma; NOT decided: that update runs before the first message of the new session is stored.",
-   note="Trusted base of DESIGN 7.",
+   text="FRAGMENT, proved: session_state setters/getters are bit-exact on the two flags (session_present = bit 0, subscriptions_present = bit 1, each setter changes only its bit). client_service::update_session_state (the only place the CONNACK outcome is applied, emitted from the mqtt_client<tcp::socket> instantiation): session_expired is stored to the receive channel exactly when the new session is fresh AND subscriptions existed, exactly once, with exactly that code; afterwards session_present is set and subscriptions_present cleared; a resumed session changes nothing; pending PUBREL waits are dropped iff the session was not resumed; the ping timer is restarted. Lemma over the CONTRACTS (bodies replaced): two consecutive fresh reconnects report the loss once, not twice. NOT decided: that update runs before the first message of the new session is stored (ordering across continuations of connect_op / reconnect_op), how session_present is derived from the CONNACK flags byte.",
+   note="Trusted base of DESIGN 7. Opaque environment recorded by ghost counters (channel store, replies, timer).",
    design='5 C13')
 
 CLAIMED['C01'] = dict(
@@ -80,7 +80,7 @@ CLAIMED['C05'] = dict(
    design='5 C05')
 CLAIMED['C07'] = dict(
    category='proof',
-   text="FRAGMENT, proved: every completion of a QoS 1/2 publish releases its packet identifier exactly once with was_throttled = true (complete), immediate rejections release it with was_throttled = false and never release id 0; PUBLISH is sent throttled, the first PUBREL prioritized and not throttled, a resent PUBREL prioritized and throttled. NOT built yet: the quota invariant of async_sender (do_write / throttled_op_done / resend) with the ghost in-flight counter; NOT decided: pairing of consumption and release across asynchronous boundaries.",
+   text="FRAGMENT, proved: every completion of a QoS 1/2 publish releases its packet identifier exactly once with was_throttled = true (complete), immediate rejections release it with was_throttled = false and never release id 0; PUBLISH is sent throttled, the first PUBREL prioritized and not throttled, a resent PUBREL prioritized and throttled. BOUNDED (queue of 2 quick / 5 thorough): async_sender::do_write never puts more throttled requests into a batch than the remaining quota and subtracts exactly their number (quota 0 sends only unthrottled ones, MAX_LIMIT = no limit); throttled_op_done returns one unit, never above the limit; NOT decided: pairing of consumption and release across asynchronous boundaries.",
    note="As C01.",
    design='5 C07')
 CLAIMED['C15'] = dict(
@@ -105,6 +105,12 @@ CLAIMED['C04'] = dict(
    text="FRAGMENT, proved on every continuation of publish_rec_op (inbound PUBLISH): QoS bits 3 -> malformed DISCONNECT (0x81), nothing stored or sent; QoS 0 -> stored at once, no acknowledgement; QoS 1 -> PUBACK built by encode_puback with the same packet id, message stored only after that write succeeded; QoS 2 -> PUBREC with the same id, then a wait for (PUBREL, id); PUBCOMP (encode_pubcomp, same id) only after a decodable PUBREL with an admitted reason code, every such PUBREL is answered, otherwise malformed-disconnect and wait again; message stored only after the PUBCOMP write succeeded, try_again waits for the retransmitted PUBREL without storing (never PUBCOMP before PUBREL, QoS 2 stored once per exchange). BOUNDED (3 waiters quick / 5 thorough): replies::dispatch completes only the first waiter matching (code, id) with exactly the reply, stores an unmatched reply instead of delivering it; clear_pending_pubrels aborts exactly the PUBREL waiters once each and keeps the others. NOT decided: order of deliveries, at-least-once across drops, duplicate-waiter replacement in async_wait_reply (not built), channel capacity behaviour.",
    note="Assumed: decode_publish yields a packet id exactly for QoS > 0; control_packet::of stores the id it is given; Asio adapters (prepend/consign) do not modify their arguments.",
    design='5 C04')
+
+CLAIMED['C11'] = dict(
+   category='other',
+   text="BOUNDED stand-in (waiting queue of at most 3 waiters quick / 6 thorough; each slot symbolic: live handler or emptied by per-operation cancellation): async_mutex -- lock() on a free mutex takes it and posts exactly one grant, on a held mutex appends the waiter at the back and grants nothing; unlock() hands the lock to the FIRST live waiter (emptied slots skipped), keeps _locked set across the hand-over, preserves the order of the waiters behind it, and releases the lock only when no live waiter is left; nobody is aborted by unlock; cancel() aborts every live waiter exactly once with operation_aborted, grants nobody and leaves the lock state alone; a per-operation cancellation signal (any type but none) aborts that waiter exactly once, empties its slot and never grants. Together: at most one holder at a time on these functions (the lock is granted only from unlock()/lock() while not held by anybody else). NOT decided: that every multi-buffer write goes through the mutex (write_op / reconnect_op callers not built), that the close/swap of the stream happens under the lock, executor re-entrancy, thread interleavings (strand assumed).",
+   note="A bounded check, never counted as proved. std::deque modelled as vector; tracked handler type erased to a non-null handle; bound executors (asio::post/dispatch + prepend) are recording stubs.",
+   design='5 C11')
 
 NOT_APPLICABLE = {
  'C02': "liveness under fairness over unbounded fault sequences ('eventually completes once the broker stays reachable'): a function contract cannot state 'eventually', and there is no CBMC model of Boost.Asio scheduling; its function-local safety crumbs are carried under C03/C05 (DESIGN 5 C02)",
